@@ -96,6 +96,9 @@ def ob_model(tomo, sysname, m, flag, tester, variant):
     nv = c03.n_var(TOMO_TYPE[tomo], d, m, flag)
     if tester == "small":
         sel = dict(states=[0, 3, 4], povms=[9, 0]) if sysname == "T1" else dict(states=[0, 5], povms=[4])
+    elif tester == "uneven":
+        import c09
+        sel = c09.uniform_sel(tomo, sysname, "uneven")      # 3-outcome POVMs with elements of unequal trace FIRST in the list
     else:
         sel = (tomo_lib.MIXED if tester == "mixed" else tomo_lib.DEFAULT)[(tomo, sysname)]
 
@@ -232,6 +235,8 @@ def obligations(tier):
                     if s == "Q1":
                         out += specs("C08.model", [{"tomo": tomo, "sysname": s, "m": m, "flag": flag, "tester": "mixed", "variant": "all"}], ob_model, 3)
     for flag in (True, False):
+        out += specs("C08.model", [{"tomo": "qst", "sysname": "Q1", "m": 0, "flag": flag, "tester": "uneven", "variant": "all"}], ob_model, 3)
+        out += specs("C08.model", [{"tomo": "qpt", "sysname": "Q1", "m": 0, "flag": flag, "tester": "uneven", "variant": "all"}], ob_model, 3)
         # composite system (2 qubits): dimension of the whole system vs of its parts
         out += specs("C08.model", [{"tomo": "povmt", "sysname": "Q2", "m": 2, "flag": flag, "tester": "small", "variant": "all"}], ob_model, 4)
         out += specs("C08.model", [{"tomo": "qst", "sysname": "Q2", "m": 0, "flag": flag, "tester": "small", "variant": "all"}], ob_model, 4)
